@@ -1,12 +1,12 @@
 package pc
 
 import (
-	"os"
 	"fmt"
 	"go/ast"
 	"go/constant"
 	"go/token"
 	"go/types"
+	"os"
 	"sort"
 	"strconv"
 	"strings"
@@ -16,7 +16,7 @@ import (
 // ---- C09/backup: typestate of the scanner's one-rune back-up.
 
 type backupClient struct {
-	backed   map[string]bool // sub-scanner -> every call from Scan follows a prev()
+	backed map[string]bool // sub-scanner -> every call from Scan follows a prev()
 	BaseClient
 	p        *Program
 	next     *types.Func
@@ -1651,6 +1651,72 @@ func ruleC09Runes(p *Program, r *Run) {
 		})
 	}
 	r.Floor("C09/runes", 1)
+	ruleC09Decoded(p, r)
+}
+
+// decodedClient: the character the scanner's read method hands out is the one utf8.DecodeRune(InString) decoded at
+// the position (U+FFFD for a byte that is not valid UTF-8), or a byte known to be ASCII.
+type decodedClient struct {
+	BaseClient
+	InlinePure
+	fn   string
+	seen int
+}
+
+func isDecodeCall(info *types.Info, x ast.Expr) bool {
+	call, ok := ast.Unparen(x).(*ast.CallExpr)
+	if !ok {
+		return false
+	}
+	f := Callee(info, call)
+	return f != nil && f.Pkg() != nil && f.Pkg().Path() == "unicode/utf8" && strings.HasPrefix(f.Name(), "DecodeRune")
+}
+
+func (c *decodedClient) PostAssign(e *Engine, st *State, lhs, rhs []ast.Expr, _ ast.Stmt) *State {
+	if len(rhs) == 1 && len(lhs) >= 1 && isDecodeCall(e.Info, rhs[0]) {
+		return e.SetTag(st, lhs[0], "decoded")
+	}
+	return nil
+}
+
+func (c *decodedClient) Return(e *Engine, st *State, ret *ast.ReturnStmt) {
+	if !e.Reporting() || e.Lit != nil || ret == nil || len(ret.Results) != 2 {
+		return
+	}
+	if v := constOf(e.Info, ret.Results[1]); v != nil && v.String() == "false" {
+		return
+	}
+	c.seen++
+	key := fmt.Sprintf("%s return #%d hands out the decoded character", c.fn, returnOrdinal(e.Func, ret))
+	x := ret.Results[0]
+	ok := e.HasTag(st, x, "decoded") || isDecodeCall(e.Info, x)
+	if !ok {
+		// a single byte known to be ASCII (a fast path in front of the decoder)
+		if f := e.FactOf(st, x); f != nil && f.Lo != nil && f.Hi != nil && *f.Lo >= 0 && *f.Hi < 0x80 {
+			ok = true
+		}
+	}
+	e.Site("C09/runes", key, ret, ok, "the character returned is the first result of utf8.DecodeRune(InString) at the position (or a byte known to be ASCII)")
+	if !ok {
+		e.Site("C09/runes", key, ret, false, "the scanner's read method can return something other than the character decoded at the position: a byte that is not valid UTF-8 (or any other character) reaches the lexer as a different character, so what is white space, an identifier character or an error depends on it")
+	}
+}
+
+func ruleC09Decoded(p *Program, r *Run) {
+	pkg := p.Parser
+	fd := p.MustFunc(pkg, "scanner.next")
+	fn := FuncName(pkg, fd)
+	r.Saw(fn)
+	c := &decodedClient{fn: fn}
+	e := NewEngine(p, pkg, fd, c)
+	e.Run(nil)
+	for _, m := range e.Errs {
+		r.Fail("C09/runes", fn+" engine", "-", m)
+	}
+	e.FlushSites(r)
+	if c.seen == 0 {
+		r.Fail("C09/runes", fn+" hands out the decoded character", p.Pos(fd.Pos()), "no successful return of the scanner's read method found")
+	}
 }
 
 // ---- C09/lookahead: a scanner method that reports failure (false) leaves the position where it was.
@@ -1878,7 +1944,7 @@ func ruleC09Escapes(p *Program, r *Run) {
 	ruleC09Unquote(p, r)
 }
 
-// ruleC09Unquote: quotedIdent: Value = ReplaceAll(text between the backticks, "``", "`")
+// ruleC09Unquote: quotedIdent: Value = ReplaceAll(text between the backticks, "“", "`")
 func ruleC09Unquote(p *Program, r *Run) {
 	pkg := p.Parser
 	info := pkg.TypesInfo
@@ -2209,4 +2275,281 @@ func (p *Program) keywordTable() (map[string]string, token.Pos) {
 		}
 	}
 	return nil, token.NoPos
+}
+
+// ---- C09/accessors: a number literal is an integer exactly when it is not spelled as a float.
+//
+// IsInteger may only answer true on a path where the literal's kind is known to be TokenNumber and IsFloat() of the
+// same literal is known to be false (path facts; a compound result expression is split into its outcomes).
+type accessorClient struct {
+	BaseClient
+	fn      string
+	recvKey string
+	isFloat *types.Func
+	numKey  string
+	seen    int
+}
+
+func (c *accessorClient) Return(e *Engine, st *State, ret *ast.ReturnStmt) {
+	if !e.Reporting() || e.Lit != nil || ret == nil || len(ret.Results) != 1 {
+		return
+	}
+	if v := constOf(e.Info, ret.Results[0]); v != nil && v.String() == "false" {
+		return
+	}
+	e.quiet++
+	yes, _ := e.cond(ret.Results[0], []*State{st})
+	e.quiet--
+	key := fmt.Sprintf("%s return #%d answers true only for a number that is not spelled as a float", c.fn, returnOrdinal(e.Func, ret))
+	for _, t := range yes {
+		c.seen++
+		kind := t.Get(c.recvKey + ".Kind")
+		okKind := kind != nil && kind.HasEq && kind.Eq == c.numKey
+		okFloat := false
+		for _, k := range t.Keys() {
+			if strings.HasPrefix(k, "call:"+c.isFloat.FullName()+"(") {
+				if f := t.Get(k); f != nil && f.HasEq && f.Eq == "false" {
+					okFloat = true
+				}
+			}
+		}
+		ok := okKind && okFloat
+		e.Site("C09/accessors", key, ret, ok, "Kind == TokenNumber and !IsFloat() are known where the answer is true")
+		if !ok {
+			var miss []string
+			if !okKind {
+				miss = append(miss, "the kind is not known to be TokenNumber")
+			}
+			if !okFloat {
+				miss = append(miss, "IsFloat() is not known to be false")
+			}
+			e.Site("C09/accessors", key, ret, false, "IsInteger can answer true although "+strings.Join(miss, " and ")+": a literal spelled with a fraction or exponent would count as an integer (and be accepted as a row count), so the accessors no longer follow the literal's spelling")
+		}
+	}
+}
+
+func ruleC09Accessors(p *Program, r *Run) {
+	pkg := p.Parser
+	info := pkg.TypesInfo
+	fd := p.MustFunc(pkg, "BasicLit.IsInteger")
+	fn := FuncName(pkg, fd)
+	r.Saw(fn)
+	if fd.Recv == nil || len(fd.Recv.List) != 1 || len(fd.Recv.List[0].Names) != 1 {
+		r.Fail("C09/accessors", fn+" receiver", p.Pos(fd.Pos()), "IsInteger has no named receiver")
+		return
+	}
+	tn := p.constNamed(pkg.Types.Scope(), "TokenNumber")
+	if tn == nil {
+		fatalf("anchor not found: const parser.TokenNumber")
+	}
+	c := &accessorClient{fn: fn, isFloat: FuncObj(pkg, p.MustFunc(pkg, "BasicLit.IsFloat")), numKey: constKey(tn.Val())}
+	e := NewEngine(p, pkg, fd, c)
+	c.recvKey = e.objKey(info.Defs[fd.Recv.List[0].Names[0]])
+	e.Run(nil)
+	for _, m := range e.Errs {
+		r.Fail("C09/accessors", fn+" engine", "-", m)
+	}
+	e.FlushSites(r)
+	if c.seen == 0 {
+		r.Fail("C09/accessors", fn+" answers", p.Pos(fd.Pos()), "IsInteger never answers true on a feasible path")
+	}
+	r.Floor("C09/accessors", 1)
+}
+
+// ---- C09/normalize: normalising a decimal literal keeps everything after its leading zeros.
+//
+// The value of a number token is the literal's own text with redundant leading zeros removed and, where the text
+// would otherwise start with '.', 'e' or 'E' (or be empty), a "0" put in front. Whether the literal is a float
+// (IsFloat looks for '.', 'e', 'E' in the value), what its digits are and what it denotes all rest on nothing else
+// being taken away. Decided on normalizeNumberValue: every value it can return is a constant, a suffix of its
+// parameter (TrimLeft/TrimPrefix with a constant, s[i:]), or a constant followed by such a suffix.
+func ruleC09Normalize(p *Program, r *Run) {
+	pkg := p.Parser
+	info := pkg.TypesInfo
+	fd := p.FuncDecl(pkg, "normalizeNumberValue")
+	if fd == nil {
+		return
+	}
+	fn := FuncName(pkg, fd)
+	r.Saw(fn)
+	if len(fd.Type.Params.List) != 1 || len(fd.Type.Params.List[0].Names) != 1 {
+		r.Fail("C09/normalize", fn+" signature", p.Pos(fd.Pos()), "expected one string parameter")
+		return
+	}
+	param := info.Defs[fd.Type.Params.List[0].Names[0]]
+	const (
+		kConst  = 1
+		kSuffix = 2
+		kBoth   = 3 // constant + suffix
+		kOther  = 4
+	)
+	var classify func(x ast.Expr, depth int) int
+	varClass := map[types.Object]int{}
+	classify = func(x ast.Expr, depth int) int {
+		x = ast.Unparen(x)
+		if depth > 8 {
+			return kOther
+		}
+		if _, ok := constString(info, x); ok {
+			return kConst
+		}
+		switch v := x.(type) {
+		case *ast.Ident:
+			o := objOf(info, v)
+			if c, ok := varClass[o]; ok {
+				return c
+			}
+			return kOther
+		case *ast.SliceExpr:
+			if v.High == nil && v.Max == nil && classify(v.X, depth+1) == kSuffix {
+				return kSuffix
+			}
+		case *ast.BinaryExpr:
+			if v.Op == token.ADD {
+				a, b := classify(v.X, depth+1), classify(v.Y, depth+1)
+				if a == kConst && (b == kSuffix || b == kConst) {
+					if b == kConst {
+						return kConst
+					}
+					return kBoth
+				}
+			}
+		case *ast.CallExpr:
+			f := Callee(info, v)
+			if f != nil && f.Pkg() != nil && f.Pkg().Path() == "strings" && (f.Name() == "TrimLeft" || f.Name() == "TrimPrefix") && len(v.Args) == 2 {
+				if _, isC := constString(info, v.Args[1]); isC && classify(v.Args[0], depth+1) == kSuffix {
+					return kSuffix
+				}
+			}
+		}
+		return kOther
+	}
+	// the parameter and every local string: the join of what is assigned to it, to a fixpoint
+	varClass[param] = kSuffix
+	join := func(a, b int) int {
+		switch {
+		case a == 0:
+			return b
+		case a == b:
+			return a
+		default:
+			return kOther
+		}
+	}
+	for iter := 0; iter < 6; iter++ {
+		changed := false
+		ast.Inspect(fd.Body, func(n ast.Node) bool {
+			as, ok := n.(*ast.AssignStmt)
+			if !ok || len(as.Lhs) != len(as.Rhs) {
+				return true
+			}
+			for i, l := range as.Lhs {
+				o := objOf(info, l)
+				if o == nil {
+					continue
+				}
+				if b, isB := o.Type().Underlying().(*types.Basic); !isB || b.Info()&types.IsString == 0 {
+					continue
+				}
+				c := classify(as.Rhs[i], 0)
+				if as.Tok != token.ASSIGN && as.Tok != token.DEFINE {
+					c = kOther
+				}
+				if n := join(varClass[o], c); n != varClass[o] {
+					varClass[o] = n
+					changed = true
+				}
+			}
+			return true
+		})
+		if !changed {
+			break
+		}
+	}
+	k := 0
+	ast.Inspect(fd.Body, func(n ast.Node) bool {
+		if _, nested := n.(*ast.FuncLit); nested {
+			return false
+		}
+		ret, ok := n.(*ast.ReturnStmt)
+		if !ok || len(ret.Results) != 1 {
+			return true
+		}
+		k++
+		c := classify(ret.Results[0], 0)
+		r.Check(c != kOther, "C09/normalize", fmt.Sprintf("%s return #%d", fn, k), p.Pos(ret.Pos()), "a constant, a suffix of the literal's text, or a constant in front of such a suffix", "the value returned ("+exprStr(ret.Results[0])+") is not the literal's text minus a prefix: characters other than leading zeros can be removed or changed, so a literal spelled with a fraction or exponent can lose that spelling (IsFloat, IsInteger and the row-count check then disagree with what was written) or denote another value")
+		return true
+	})
+	r.Floor("C09/normalize", 2)
+}
+
+// ---- C09/start: scanning starts at the first byte.
+//
+// Everything Scan passes over is a token, white space or a comment, decided inside its loop (C09/classes and the
+// skip rule). Nothing may move the scanner before the loop is entered - a prefix skipped there is neither: the same
+// bytes in the middle of a source are an error token, so scanning a piece on its own and in context disagree.
+func ruleC09Start(p *Program, r *Run) {
+	pkg := p.Parser
+	info := pkg.TypesInfo
+	fd := p.MustFunc(pkg, "Scan")
+	fn := FuncName(pkg, fd)
+	r.Saw(fn)
+	isScannerT := func(t types.Type) bool {
+		return t != nil && strings.HasSuffix(strings.TrimPrefix(TypeStr(t), "*"), "parser.scanner")
+	}
+	bad := ""
+	sawLoop := false
+	for _, s := range fd.Body.List {
+		if _, ok := s.(*ast.ForStmt); ok {
+			sawLoop = true
+			break
+		}
+		if _, ok := s.(*ast.RangeStmt); ok {
+			sawLoop = true
+			break
+		}
+		ast.Inspect(s, func(n ast.Node) bool {
+			switch v := n.(type) {
+			case *ast.CallExpr:
+				if sel, ok := ast.Unparen(v.Fun).(*ast.SelectorExpr); ok && isScannerT(info.TypeOf(sel.X)) && bad == "" {
+					bad = "the scanner method " + sel.Sel.Name + " is called at " + p.Pos(v.Pos()) + " before the scanning loop"
+				}
+				for _, a := range v.Args {
+					if u, ok := ast.Unparen(a).(*ast.UnaryExpr); ok && u.Op == token.AND && isScannerT(info.TypeOf(u.X)) && bad == "" {
+						bad = "the scanner is handed to " + exprStr(v.Fun) + " at " + p.Pos(v.Pos()) + " before the scanning loop"
+					}
+				}
+			case *ast.AssignStmt:
+				for _, l := range v.Lhs {
+					if sel, ok := ast.Unparen(l).(*ast.SelectorExpr); ok && isScannerT(info.TypeOf(sel.X)) && bad == "" {
+						bad = "the scanner field " + sel.Sel.Name + " is assigned at " + p.Pos(v.Pos()) + " before the scanning loop"
+					}
+				}
+			case *ast.CompositeLit:
+				if isScannerT(info.TypeOf(v)) {
+					for _, el := range v.Elts {
+						kv, ok := el.(*ast.KeyValueExpr)
+						if !ok {
+							continue
+						}
+						fld, _ := objOf(info, kv.Key).(*types.Var)
+						if fld == nil {
+							continue
+						}
+						if b, isB := fld.Type().Underlying().(*types.Basic); isB && b.Info()&types.IsInteger != 0 {
+							if c, isC := constInt(info, kv.Value); (!isC || c != 0) && bad == "" {
+								bad = "the scanner is created with " + fld.Name() + " = " + exprStr(kv.Value)
+							}
+						}
+					}
+				}
+			}
+			return true
+		})
+	}
+	if !sawLoop {
+		bad = "no scanning loop found in the body of Scan"
+	}
+	r.Check(bad == "", "C09/start", fn+" starts at the first byte", p.Pos(fd.Pos()), "the scanner is created at offset 0 and first moved inside the loop", bad+": bytes at the start of the source can be passed over without becoming a token, white space or a comment, although the same bytes elsewhere are an error token")
+	r.Floor("C09/start", 1)
 }
